@@ -35,6 +35,8 @@ TEMPL = {
     "tet4": (lambda: fem.Cube(n=2).triangulate(), fem.RegionTetra, "simplex", 1),
     "tet10": (lambda: fem.Cube(n=2).triangulate().add_midpoints_edges(), fem.RegionQuadraticTetra, "simplex", 2),
     "hex8": (lambda: fem.Cube(n=2), fem.RegionHexahedron, "cube", 1),
+    "hex20": (lambda: fem.Cube(n=2).add_midpoints_edges(), fem.RegionQuadraticHexahedron, "cube", 2),
+    "hex27": (lambda: fem.Cube(n=2).add_midpoints_edges().add_midpoints_faces().add_midpoints_volumes(), fem.RegionTriQuadraticHexahedron, "cube", 2),
 }
 
 
@@ -57,15 +59,23 @@ def mesh_offset(ctx, kind, spread=0.15):
     return fem.Mesh(pts, cells, ct)
 
 
-def mesh_affine(ctx, kind):
-    """X = A xi + b with symbolic A (close to identity) and b"""
+def mesh_affine(ctx, kind, concrete=False):
+    """X = A xi + b with symbolic A (close to identity) and b; concrete=True: one symbolic stretch factor times a fixed rational shear"""
     X0, cells, ct = one_cell(ctx, kind)
     d = X0.shape[1]
     A = np.empty((d, d), dtype=object if ctx.sym else float)
-    for i in range(d):
-        for j in range(d):
-            A[i, j] = ctx.var("A_%d_%d" % (i, j), (1.0 if i == j else 0.0) - 0.3, (1.0 if i == j else 0.0) + 0.3)
-    b = ctx.array("b", (d,), -1, 1)
+    if concrete:
+        s_ = ctx.var("stretch", 0.5, 2)
+        base = np.array([[1, Fraction(1, 4), 0], [Fraction(1, 8), 1, Fraction(1, 4)], [0, Fraction(1, 8), 1]], dtype=object)[:d, :d]
+        for i in range(d):
+            for j in range(d):
+                A[i, j] = s_ * (base[i, j] if ctx.sym else float(base[i, j]))
+        b = np.zeros(d, dtype=object if ctx.sym else float) + (0 if not ctx.sym else 0)
+    else:
+        for i in range(d):
+            for j in range(d):
+                A[i, j] = ctx.var("A_%d_%d" % (i, j), (1.0 if i == j else 0.0) - 0.3, (1.0 if i == j else 0.0) + 0.3)
+        b = ctx.array("b", (d,), -1, 1)
     X0e = [[Fraction(float(v)).limit_denominator(64) if ctx.sym else float(v) for v in row] for row in X0]
     pts = np.array([[sum(A[i, j] * X0e[p][j] for j in range(d)) + b[i] for i in range(d)] for p in range(len(X0e))], dtype=object if ctx.sym else float)
     return fem.Mesh(pts, cells, ct), A, b
@@ -267,9 +277,9 @@ def case_reproduction(ctx, kind, geometry, fieldkind="Field"):
                 ctx.equal("hessian_reproduced[%d,%d]" % (j, l), H[0, j, l, :, 0], np.array([ddp(xq[q_], 0, j, l) for q_ in range(nq)], dtype=object if ctx.sym else float), tol=tol)
 
 
-def case_pairing(ctx, kind):
+def case_pairing(ctx, kind, concrete=False):
     """default quadrature integrates dh_a/dX_i dh_b/dX_j exactly on an affine cell"""
-    mesh, A, b = mesh_affine(ctx, kind)
+    mesh, A, b = mesh_affine(ctx, kind, concrete=concrete)
     d = mesh.dim
     R, domain = TEMPL[kind][1], TEMPL[kind][2]
     with ctx.assume_forks(False):
@@ -307,7 +317,8 @@ def case_pairing(ctx, kind):
             return ga * gb
 
         exp.append(exact_integral(ctx, integrand, d, domain) / detJ)
-    ctx.equal("quadrature_integrates_gradient_products_exactly", np.array(got, dtype=object if ctx.sym else float), np.array(exp, dtype=object if ctx.sym else float), tol=1e-9)
+    # the order-2 tetrahedron table carries 8 digits (0.13819660, 0.58541020): exact only to ~1e-8
+    ctx.equal("quadrature_integrates_gradient_products_exactly", np.array(got, dtype=object if ctx.sym else float), np.array(exp, dtype=object if ctx.sym else float), tol=1e-6 if kind == "tet10" else 1e-9, rtol_replay=1e-5 if kind == "tet10" else 1e-6)
 
 
 def case_families(ctx):
@@ -335,5 +346,7 @@ def cases(tier):
     out.append(("reproduction", case_reproduction, {"kind": "quad4", "geometry": "offset", "fieldkind": "Axisymmetric", "max_paths": 8}))
     for k in ("tri3", "quad4", "tri6", "tet4") + (("quad8", "hex8") if thorough else ()):
         out.append(("pairing", case_pairing, {"kind": k, "max_paths": 8}))
+    for k in ("quad8", "quad9", "tet10", "hex8", "hex20") + (("hex27",) if thorough else ()):
+        out.append(("pairing", case_pairing, {"kind": k, "concrete": True, "max_paths": 8}))
     out.append(("families", case_families, {"max_paths": 8}))
     return out
